@@ -224,7 +224,9 @@ func (ex *Exec) binop(fr *frame, op token.Token, t types.Type, x, y Value) Value
 		case token.GEQ:
 			return simplify(TGe(a, b))
 		case token.QUO:
-			ex.inconclusive("symbolic float division at " + fr.posStr())
+			// a quotient that only feeds reports (a load figure, a rate) stays an
+			// opaque value; using it in a branch or a comparison is inconclusive there
+			return Opaque{"symbolic float quotient at " + fr.posStr()}
 		}
 	case ut.Info()&types.IsInteger != 0:
 		a := intTerm(x)
